@@ -10,7 +10,7 @@ theorem inv_touch {kd : Kind} {s : Lru} (hi : Inv kd s) {k : Nat} {e : Entry} (h
   have ⟨hm, hk⟩ := find_some hf
   subst hk
   have ht := total_removeKey hf
-  refine ⟨?_, ?_, ?_, hi.cap_nonneg, ?_, ?_⟩
+  refine ⟨?_, ?_, ?_, hi.cap_nonneg, ?_, ?_, hi.cap_lt⟩
   · simp [hi.size_eq, ht]; omega
   · intro x hx; simp at hx
     rcases hx with rfl | hx
@@ -25,17 +25,24 @@ theorem inv_touch {kd : Kind} {s : Lru} (hi : Inv kd s) {k : Nat} {e : Entry} (h
     exact ⟨key_not_mem_removeKey _ _ hi.nodup, nodup_removeKey _ _ hi.nodup⟩
 
 theorem addNew_sim {c : Cfg} {kd : Kind} {s : Lru} (hc : c.evictWhile = .gt) (hi : Inv kd s)
-    (k v : Nat) (sz : Int) (hsz : 0 ≤ sz) (hf : find? k s.list = none) :
+    (k v : Nat) (sz : Int) (hsz : 0 ≤ sz) (hsz2 : sz < 2 ^ 62) (hf : find? k s.list = none) :
     Inv kd (addNew c kd s k v sz).1 ∧ abs (addNew c kd s k v sz).1 = ((abs s).insert kd k v sz).1 ∧
       (addNew c kd s k v sz).2.1 = ((abs s).insert kd k v sz).2.map (·.val) ∧ (addNew c kd s k v sz).2.2 = false := by
-  have hp : Pre kd { s with list := ⟨k, v, szOf kd sz⟩ :: s.list, size := s.size + szOf kd sz } :=
-    pre_push hi k v (szOf kd sz) (szOf_nonneg kd sz hsz) (by intro h; subst h; rfl) s.list (fun _ h => h)
-      (key_not_mem_of_none hf) hi.nodup _ (by rw [hi.size_eq]; omega)
+  have h0 := szOf_nonneg kd sz hsz
+  have h1 := szOf_lt kd sz hsz2
+  have ht0 := total_nonneg s.list hi.nonneg
+  have hfit := hi.fits
+  have hcl := hi.cap_lt
+  have hw : wrap64 (s.size + szOf kd sz) = szOf kd sz + total s.list := by
+    rw [hi.size_eq, wrap64_id _ (by omega) (by omega)]; omega
+  have hp : Pre kd { s with list := ⟨k, v, szOf kd sz⟩ :: s.list, size := wrap64 (s.size + szOf kd sz) } :=
+    pre_push hi k v (szOf kd sz) h0 (by intro h; subst h; rfl) s.list (fun _ h => h)
+      (key_not_mem_of_none hf) hi.nodup _ hw (by omega)
   have := checkCapacity_inv hc hp
   simpa [addNew, Ideal.insert, abs, removeKey_of_none hf] using this
 
 theorem update_sim {c : Cfg} {kd : Kind} {s : Lru} (hc : Proved kd c) (hi : Inv kd s)
-    (k v : Nat) (sz : Int) (hsz : 0 ≤ sz) {old : Entry} (hf : find? k s.list = some old) :
+    (k v : Nat) (sz : Int) (hsz : 0 ≤ sz) (hsz2 : sz < 2 ^ 62) {old : Entry} (hf : find? k s.list = some old) :
     Inv kd (updateInPlace c kd s old v sz).1 ∧
       abs (updateInPlace c kd s old v sz).1 = ((abs s).insert kd k v sz).1 ∧
       (updateInPlace c kd s old v sz).2.1 = ((abs s).insert kd k v sz).2.map (·.val) ∧
@@ -46,15 +53,21 @@ theorem update_sim {c : Cfg} {kd : Kind} {s : Lru} (hc : Proved kd c) (hi : Inv 
   have ht := total_removeKey hf
   cases kd with
   | sized =>
-    have hp : Pre .sized { s with list := ⟨old.key, v, sz⟩ :: removeKey old.key s.list, size := s.size + (sz - old.size) } :=
+    have ho0 := hi.nonneg _ hm
+    have hr0 := total_nonneg (removeKey old.key s.list) (fun x hx => hi.nonneg x (mem_removeKey hx))
+    have hfit := hi.fits
+    have hcl := hi.cap_lt
+    have hw : wrap64 (s.size + wrap64 (sz - old.size)) = sz + total (removeKey old.key s.list) := by
+      rw [wrap64_id (sz - old.size) (by omega) (by omega), hi.size_eq, wrap64_id _ (by omega) (by omega)]; omega
+    have hp : Pre .sized { s with list := ⟨old.key, v, sz⟩ :: removeKey old.key s.list, size := wrap64 (s.size + wrap64 (sz - old.size)) } :=
       pre_push hi old.key v sz hsz (by intro h; cases h) _ (fun _ h => mem_removeKey h)
-        (key_not_mem_removeKey _ _ hi.nodup) (nodup_removeKey _ _ hi.nodup) _ (by rw [hi.size_eq, ht]; omega)
+        (key_not_mem_removeKey _ _ hi.nodup) (nodup_removeKey _ _ hi.nodup) _ hw (by omega)
     have := checkCapacity_inv hgt hp
     simpa [updateInPlace, hupd rfl, Ideal.insert, abs, szOf] using this
   | tiny =>
     have h1 : old.size = 1 := hi.unit rfl _ hm
     have hi1 : Inv .tiny { s with list := ⟨old.key, v, 1⟩ :: removeKey old.key s.list } := by
-      refine ⟨?_, ?_, ?_, hi.cap_nonneg, ?_, ?_⟩
+      refine ⟨?_, ?_, ?_, hi.cap_nonneg, ?_, ?_, hi.cap_lt⟩
       · simp [hi.size_eq, ht, h1]; omega
       · intro x hx; simp at hx
         rcases hx with rfl | hx
@@ -82,13 +95,14 @@ theorem update_sim {c : Cfg} {kd : Kind} {s : Lru} (hc : Proved kd c) (hi : Inv 
     · simp only [Ideal.insert, szOf]; rw [show (abs s).entries = s.list from rfl, hfit]; rfl
 
 /-- set-like operations: look the key up, update in place or add -/
-theorem insert_sim {c : Cfg} {kd : Kind} {s : Lru} (hc : Proved kd c) (hi : Inv kd s) (k v : Nat) (sz : Int) (hsz : 0 ≤ sz) :
+theorem insert_sim {c : Cfg} {kd : Kind} {s : Lru} (hc : Proved kd c) (hi : Inv kd s) (k v : Nat) (sz : Int) (hsz : 0 ≤ sz)
+    (hsz2 : sz < 2 ^ 62) :
     let r := upsert c kd s k v sz
     Inv kd r.1 ∧ abs r.1 = ((abs s).insert kd k v sz).1 ∧ r.2.1 = ((abs s).insert kd k v sz).2.map (·.val) ∧ r.2.2 = false := by
   simp only [upsert]
   cases hf : find? k s.list with
-  | some old => exact update_sim hc hi k v sz hsz hf
-  | none => exact addNew_sim hc.1 hi k v sz hsz hf
+  | some old => exact update_sim hc hi k v sz hsz hsz2 hf
+  | none => exact addNew_sim hc.1 hi k v sz hsz hsz2 hf
 
 theorem step_sim {c : Cfg} {kd : Kind} (hc : Proved kd c) (s : Lru) (op : Op) (hi : Inv kd s) (hok : op.sizeOk = true) :
     Inv kd (step c kd s op).1 ∧ abs (step c kd s op).1 = (specStep kd (abs s) op).1 ∧
@@ -97,13 +111,15 @@ theorem step_sim {c : Cfg} {kd : Kind} (hc : Proved kd c) (s : Lru) (op : Op) (h
   obtain ⟨hgt, hget, hpeek, hsia, -⟩ := hc'
   cases op with
   | set k v sz =>
-    have h := insert_sim hc hi k v sz (by simpa [Op.sizeOk] using hok)
+    have hb : 0 ≤ sz ∧ sz < 2 ^ 62 := by simpa [Op.sizeOk] using hok
+    have h := insert_sim hc hi k v sz hb.1 hb.2
     simp only [] at h
     simp only [step, specStep]
     refine ⟨h.1, h.2.1, ?_⟩
     rw [h.2.2.2]; rfl
   | setGetRemoved k v sz =>
-    have h := insert_sim hc hi k v sz (by simpa [Op.sizeOk] using hok)
+    have hb : 0 ≤ sz ∧ sz < 2 ^ 62 := by simpa [Op.sizeOk] using hok
+    have h := insert_sim hc hi k v sz hb.1 hb.2
     simp only [] at h
     simp only [step, specStep]
     refine ⟨h.1, h.2.1, ?_⟩
@@ -115,7 +131,8 @@ theorem step_sim {c : Cfg} {kd : Kind} (hc : Proved kd c) (s : Lru) (op : Op) (h
       simp only [hsia, if_true]
       exact ⟨inv_touch hi hf, by first | rfl | trivial, by first | rfl | trivial⟩
     | none =>
-      have h := addNew_sim hgt hi k v sz (by simpa [Op.sizeOk] using hok) hf
+      have hb : 0 ≤ sz ∧ sz < 2 ^ 62 := by simpa [Op.sizeOk] using hok
+      have h := addNew_sim hgt hi k v sz hb.1 hb.2 hf
       refine ⟨h.1, h.2.1, ?_⟩
       rw [h.2.2.2]; rfl
   | get k =>
@@ -137,8 +154,12 @@ theorem step_sim {c : Cfg} {kd : Kind} (hc : Proved kd c) (s : Lru) (op : Op) (h
       have ht := total_removeKey hf
       have hd := dec_eq hi.unit e hm
       have hn := hi.nonneg e hm
-      refine ⟨⟨?_, ?_, ?_, hi.cap_nonneg, ?_, nodup_removeKey _ _ hi.nodup⟩, rfl, rfl⟩
-      · simp [hi.size_eq, ht, hd]
+      have hr0 := total_nonneg (removeKey k s.list) (fun x hx => hi.nonneg x (mem_removeKey hx))
+      have hfit := hi.fits
+      have hcl := hi.cap_lt
+      refine ⟨⟨?_, ?_, ?_, hi.cap_nonneg, ?_, nodup_removeKey _ _ hi.nodup, hi.cap_lt⟩, rfl, rfl⟩
+      · show wrap64 (s.size - decOf kd e) = total (removeKey k s.list)
+        rw [hi.size_eq, hd, wrap64_id _ (by omega) (by omega), ht]
       · intro x hx; exact hi.nonneg _ (mem_removeKey hx)
       · have := hi.fits; simp [ht]; omega
       · intro h x hx; exact hi.unit h _ (mem_removeKey hx)
@@ -146,10 +167,11 @@ theorem step_sim {c : Cfg} {kd : Kind} (hc : Proved kd c) (s : Lru) (op : Op) (h
       refine ⟨hi, ?_, rfl⟩
       simp [abs, removeKey_of_none hf]
   | clear =>
-    refine ⟨⟨rfl, by simp [step], by simpa [step] using hi.cap_nonneg, hi.cap_nonneg, by simp [step], by simp [step]⟩, rfl, rfl⟩
+    refine ⟨⟨rfl, by simp [step], by simpa [step] using hi.cap_nonneg, hi.cap_nonneg, by simp [step], by simp [step], hi.cap_lt⟩, rfl, rfl⟩
   | setCapacity cap =>
+    have hb : 0 ≤ cap ∧ cap < 2 ^ 62 := by simpa [Op.sizeOk] using hok
     have hp : Pre kd { s with capacity := cap } :=
-      ⟨hi.size_eq, hi.nonneg, by simpa [Op.sizeOk] using hok, hi.unit, hi.nodup⟩
+      ⟨hi.size_eq, hi.nonneg, hb.1, hi.unit, hi.nodup, hb.2, by have := hi.fits; have := hi.cap_lt; show total s.list < 2 ^ 63; omega⟩
     have h := checkCapacity_inv hgt hp
     simp only [step, specStep]
     refine ⟨h.1, h.2.1, ?_⟩
@@ -158,7 +180,7 @@ theorem step_sim {c : Cfg} {kd : Kind} (hc : Proved kd c) (s : Lru) (op : Op) (h
   | items => exact ⟨hi, by first | rfl | trivial, by first | rfl | trivial⟩
   | stats => exact ⟨hi, rfl, by simp [step, specStep, abs, hi.size_eq]⟩
 
-theorem inv_new (kd : Kind) (cap : Int) (h : 0 ≤ cap) : Inv kd (Lru.new cap) :=
-  ⟨rfl, by simp [Lru.new], by simpa [Lru.new] using h, h, by simp [Lru.new], by simp [Lru.new]⟩
+theorem inv_new (kd : Kind) (cap : Int) (h : 0 ≤ cap) (h2 : cap < 2 ^ 62) : Inv kd (Lru.new cap) :=
+  ⟨rfl, by simp [Lru.new], by simpa [Lru.new] using h, h, by simp [Lru.new], by simp [Lru.new], h2⟩
 
 end Nv.C04
